@@ -1,4 +1,87 @@
-// slice `new_fast`: DRAFT
+// slice `new_fast`: Transition::new_fast = Transition::one_cluster_per_maintenance and its helper
+// Transition::push_vehicle_to_end_of_cluster (solution/src/transition.rs) -- how the rotation cycles of one vehicle type are
+// rebuilt from scratch (called by Schedule::recompute_transitions_and_violation_fast and, with no vehicles, by Schedule::empty).
+//
+//   C15 / C10  "every real vehicle belongs to exactly one rotation cycle of its type": every given vehicle is a key of
+//        `cycle_lookup`, is in the cycle the lookup names and in no other cycle; no other vehicle is a key or in a cycle; no cycle
+//        is empty and `empty_cycles` is empty.
+//   C15 / C09  "cached aggregates equal recomputation": the result satisfies the representation invariant
+//        `Transition::wf(network, tours)` of slices/transition.vs (env/transition_spec.vs, written from the property text): cycles
+//        duplicate-free and pairwise disjoint, `cycle_lookup` matches the cycles, every cycle counter ==
+//        `spec_cycle_counter(network, tours, cycle)` (sum of the members' tour counters + the dead-head distances between
+//        consecutive members + the closing edge from the last end depot to the first start depot), `total_maintenance_counter` /
+//        `total_maintenance_violation` == the sums of the counters / of their positive parts.
+//   WHICH cluster a vehicle joins (the greedy choice, the order the three sorts establish) is NOT part of the contract.
+//
+// What is verified how
+//   (1) push_vehicle_to_end_of_cluster: the verbatim body against "the cluster gains the vehicle at its end and the running counter
+//       stays `open_counter` (the cycle counter WITHOUT the closing edge)".
+//   (2) one_cluster_per_maintenance cannot be verified in place: the keys of its sorts are closures with the parameter pattern
+//       `|&(_, maintenance_counter)|` (Verus: no reference patterns, neither as closure parameter nor in the `let` R6 would emit) and the
+//       closing closure is FnMut (captures `&mut total_maintenance_*`; Verus: no closures capturing mutable references).  So (R8)
+//       seven pieces are lifted VERBATIM into functions of their own and verified against contracts, the rest of the function is
+//       pinned by its token hash (skeleton d2e3485b9b6e3136; the pinned text is printed into the build output):
+//         frag_split_vehicles  = the whole `for vehicle_id in vehicles.iter() { … }` (loop 1, with a loop invariant),
+//         frag_key_unassigned / frag_key_cluster = the bodies of the keys of the first two sorts (they do not panic),
+//         frag_find_cluster    = `sorted_clusters.iter_mut().find(|(_, maintenance_counter)| …)` (initialiser of `best_cluster_opt`),
+//         frag_join_cluster    = the whole `match best_cluster_opt { … }` of loop 2 (incl. `last_mut()` and both calls of (1)),
+//         frag_close_cluster   = the body of the closure of `.into_iter().map(|(vehicles, mut maintenance_counter)| …)`,
+//         frag_cycle_lookup    = `cycles.iter().enumerate().flat_map(..).collect()` (initialiser of `cycle_lookup`).
+//       lemma_one_cluster_per_maintenance (proved) derives `wf` + membership from [V] the contracts of these pieces and [P] facts read
+//       off the pinned plumbing; every hypothesis of the lemma is marked [V] or [P] in its text.  lemma_lp2_pre / lemma_close_pre /
+//       lemma_cluster_facts (proved) show that the preconditions of the pieces hold where the plumbing calls them.
+//       new_fast itself is the one call `Transition::one_cluster_per_maintenance(vehicles, tours, network)` (skeleton 5f12dd2b9f4c5810).
+//   CONTRACT this justifies for stubs of Transition::new_fast elsewhere (slices/depot_ops.vs has an uninterpreted one):
+//       requires given_ok(network, tours@, vehicles@)
+//       ensures  r.wf(network, tours@), forall v: r.has_vehicle(v) <==> vehicles@.contains(v), r.total_len() == vehicles@.len(),
+//                r.empty_cycles@.len() == 0, 0 <= r.total_maintenance_violation <= vehicles@.len() * 2^41 (TView::lemma_bounds)
+//
+// ASSUMPTIONS introduced / used by this slice
+//   A-iter (NEW, env/new_fast_shim.vs)
+//            `vec.iter_mut().find(p)`: inside module `tr` the call `.iter_mut()` on a Vec resolves to the shim trait VIterMut (a trait
+//                 method with receiver `&mut Vec<T>` is found before the slice's inherent method) and `.find` to VecIterMut::find:
+//                 one reference INTO the vector per element; the result is one of them (or None); every other reference is dropped
+//                 unmodified, so that when the borrow ends the vector is the old one with (at most) that element replaced by the
+//                 final value of the returned reference.  (vstd specifies `<[T]>::iter_mut` / `Iterator::find` natively, but its
+//                 `find` does not say that the skipped items keep their values.)  Which element is returned is NOT specified.
+//            SeqIter::flat_map (the closure is applied to every item in order, the results are concatenated); SeqIter::enumerate (text of
+//                 env/fit_reassign_shim.vs); VCycleIter::viter = TransitionCycle::iter (`self.cycle.iter().copied()`: the vehicles of the
+//                 cycle in order -- the contract of the stub in slices/transition.vs; R5 rewrites `cycle.iter()` inside the fragment);
+//            env/seqiter.vs: Viter::viter for Vec, SeqIter::map, SeqIter::collect.
+//   A-im     env/im_shim.vs (`get`); `collect()` into an im::HashMap (text of env/sched_ctor_shim.vs: the keys are exactly the first
+//            components, every key maps to the second component of SOME pair with that key).
+//   A-std    (pinned plumbing, hypotheses [P] of lemma_one_cluster_per_maintenance, not verified)
+//            `<[T]>::sort_by_key` only rearranges (`permutes`: the new slice is the old one under a bijection of the positions);
+//            `Vec::new()` is empty; `for vehicle in sorted_unassigned_vehicles` visits the elements in order;
+//            `sorted_clusters.into_iter().map(closure).collect::<Vec<_>>()` calls the FnMut closure once per cluster, in order, every
+//            call seeing the captured totals as the previous call left them, and collects the results in order; the struct literal.
+//            vstd's own specifications: `<[T]>::last_mut`, `<[T]>::last`, `<[T]>::first`, `Vec::push`, `vec![x]`, `for x in slice.iter()`,
+//            `Ord::max` on i64; env/std_specs.vs `Result::unwrap_or`.
+//   A-stub / R7a (contract text of slices/transition.vs): Tour::maintenance_counter (= the uninterpreted `tour_counter`),
+//            Tour::start_depot / Tour::end_depot (first / last node of a real tour); env/time_ops.vs, env/model_fns.vs included
+//            trusted (Network::dead_head_distance_between); Distance::in_meter and TransitionCycle::new are verified here again.
+//   A-derive derived Clone of TransitionCycle is structural (not used by the code of this slice).
+//   Ghost out-parameter: frag_close_cluster reports the values of the two captured totals after the body through `totals:
+//            &mut Ghost<(int, int)>`, written by ghost text in front of the tail expression.
+//
+// PRECONDITIONS (given_ok, from the code)
+//   * every given vehicle has a tour in `tours` (`tours.get(..).unwrap()` in loop 1, in the first sort key, in loop 2, in
+//     push_vehicle_to_end_of_cluster and in the closing closure; "It is assumed that each vehicle has a tour");
+//   * these tours are `tour_ok`: real (non-dummy: `start_depot().unwrap()` / `end_depot().unwrap()`), well-formed tours of `network`
+//     whose counters are within +-2^40; Network::wf (dead-head distances at most 2^40);
+//   * at most 2^17 vehicles: all i64 sums stay within +-2^58 (`-tour.maintenance_counter()`, `-maintenance_counter`,
+//     `*maintenance_counter + maintenance_counter_of_tour`, `+=` in push_vehicle_to_end_of_cluster and in the closing closure);
+//   * the vehicle list has NO DUPLICATES.  The code relies on it in loop 1: a vehicle listed twice is pushed twice (two one-vehicle
+//     clusters, or twice into `sorted_unassigned_vehicles` and from there into one or two clusters), so it ends up in two cycles (or
+//     twice in one) and `cycle_lookup` keeps the last one -- confirmed by a cargo test on HEAD (new_fast(&[v0, v1, v0], ..): v0 occurs
+//     twice).  The only caller with vehicles (recompute_transitions_and_violation_fast) passes the id list of one vehicle type, which is
+//     duplicate-free by C10 (listing_sorted).
+//
+// NOT covered
+//   * the greedy choice (which cluster a vehicle joins; "biggest maintenance counter that can accommodate the vehicle"), what the sorts
+//     establish, any optimality of the violation;  "It is assumed that all vehicles are of the same type" is not needed;
+//   * the pinned plumbing itself is not verified (only hashed): the [P] hypotheses are read off its text by hand;
+//   * push_vehicle_to_end_of_cluster is private and only called with non-empty clusters (`cluster.last().unwrap()`): precondition.
 #![feature(allocator_api)]
 use vstd::prelude::*;
 use std::ops::Add;
@@ -161,11 +244,13 @@ impl Clone for TransitionCycle {
         proof { lemma_split_init(network, tours@, vs, sorted_clusters@, sorted_unassigned_vehicles@); }
 //@loop "for vehicle_id in vehicles.iter()"
             invariant
-                vs == vehicles@,
+                vs == vehicles@, given_ok(network, tours@, vs),
                 it.snapshot@.remaining().len() == vs.len(),
                 forall|j: int| 0 <= j < vs.len() ==> *(#[trigger] it.snapshot@.remaining()[j]) == vs[j],
                 0 <= it.index@ <= vs.len(),
                 split_inv(network, tours@, vs, it.index@ as int, sorted_clusters@, sorted_unassigned_vehicles@), // @obl C15.new_fast.every_given_vehicle_in_exactly_one_cycle
+//@after "for vehicle_id in vehicles.iter()"
+        proof { lemma_split_done(network, tours@, vs, sorted_clusters@, sorted_unassigned_vehicles@); }
 //@before "let tour ="
             let ghost k = it.index@ as int;
             let ghost sc_a = sorted_clusters@;
@@ -180,9 +265,9 @@ impl Clone for TransitionCycle {
                     let c = sorted_clusters@[sc_a.len() as int];
                     assert(sorted_clusters@ =~= sc_a.push(c));
                     assert(c.0@ =~= seq![vs[k]]);
-                    lemma_split_cluster(network, tours@, vs, k, sc_a, su_a, c);
+                    lemma_split_cluster(network, tours@, vs, k, sc_a, su_a, c); // @obl C15.new_fast.cycle_counters_and_totals_exact
                 } else {
-                    lemma_split_unassigned(network, tours@, vs, k, sc_a, su_a);
+                    lemma_split_unassigned(network, tours@, vs, k, sc_a, su_a); // @obl C15.new_fast.every_given_vehicle_in_exactly_one_cycle
                 }
             }
 //@end
@@ -249,7 +334,7 @@ impl Clone for TransitionCycle {
 //@after "match last_cluster_opt"
                     proof {
                         if sc_a.len() > 0 {
-                            assert(gains(network, tours@, sc_a, sorted_clusters@, sc_a.len() - 1, vehicle));
+                            assert(gains(network, tours@, sc_a, sorted_clusters@, sc_a.len() - 1, vehicle)); // @obl C15.new_fast.every_given_vehicle_in_exactly_one_cycle
                         }
                     }
 //@end
@@ -262,11 +347,11 @@ impl Clone for TransitionCycle {
 //@closure-params flat_map#0
     (usize, &TransitionCycle)
 //@closure flat_map#0
-    -> (s: SeqIter<(VehicleIdx, CycleIdx)>) ensures pairs_of_cycle(*p0.1, p0.0 as int, s@)
+    -> (s: SeqIter<(VehicleIdx, CycleIdx)>) ensures pairs_of_cycle(*p0.1, p0.0 as int, s@) /* @obl C15.new_fast.lookup_matches_cycles */
 //@closure-params map#1
     VehicleIdx
 //@closure map#1
-    -> (q: (VehicleIdx, CycleIdx)) ensures q == (vehicle, idx)
+    -> (q: (VehicleIdx, CycleIdx)) ensures q == (vehicle, idx) /* @obl C15.new_fast.lookup_matches_cycles */
 //@sig
     ensures
         // the pairs the map is collected from: "maps every member of cycle i to i" (lemma_lookup_of_src)
